@@ -12,9 +12,10 @@ sys.path.insert(0, ROOT)
 props = [json.loads(l)["id"] for l in open(os.path.join(ROOT, "properties.jsonl"))]
 checks, na = [], []
 NA_REASONS = json.load(open(os.path.join(ROOT, "tools", "not_applicable.json")))
+CLAIMED = json.load(open(os.path.join(ROOT, "tools", "claimed.json")))
 for p in props:
     path = os.path.join(ROOT, "checks", p.lower() + ".py")
-    if not os.path.exists(path) or p in NA_REASONS:
+    if not os.path.exists(path) or p in NA_REASONS or p not in CLAIMED:
         na.append({"property_id": p, "reason": NA_REASONS.get(p, "no check built yet in this round; see DESIGN.md §2 for the planned model and theorems")})
         continue
     c = importlib.import_module("checks." + p.lower()).CHECK
